@@ -331,7 +331,7 @@ func checkC14(c *Ctx) {
 				"the case calls the handler on every path", sprintf("the %q case of %s can return without calling %s", cs, fname(r.where), fnameOrNil(r.targets[cs])))
 		}
 	}
-	c.R.Min("R-route-unconditional", 9)
+	c.R.Min("R-route-unconditional", 2*len(routes)) // at least one obligation per discovered route
 
 	c14DecodeAlike(c)
 	c14Wrappers(c)
